@@ -163,3 +163,9 @@ Definition combine_obs (tab : nat -> list act) (cs : list component) (k : nat)
    the caller's clock. *)
 Definition measured_ok (body_ns recorded_ns outer_ns : Z) : bool :=
   (body_ns <=? recorded_ns) && (recorded_ns <=? outer_ns).
+
+(* What the harness observes of per-iteration cleanups in whole runs (one entry per started
+   iteration): its body ran once, its cleanup ran once, and no cleanup ran before its body had
+   finished - the run-level shape of C06_iteration_cleanups. *)
+Definition cleanups_once_ok (body_runs cleanup_runs : list Z) (early : Z) : bool :=
+  forallb (Z.eqb 1) body_runs && forallb (Z.eqb 1) cleanup_runs && (early =? 0).
